@@ -127,7 +127,7 @@ CStep(c, e, o, n) ==
     awaited == isReply /\ addressed # {} /\ e.kind # "JUNK"
                /\ e.svc \in c.cl[CHOOSE i \in addressed : TRUE].owes
     tgt == IF isReply THEN (IF awaited THEN CHOOSE i \in addressed : TRUE ELSE -1)
-           ELSE IF e.e \in {"J", "QC", "RL"} THEN -1
+           ELSE IF e.e \in {"J", "QC", "RL", "B"} THEN -1
            ELSE IF e.e = "C" THEN e.id
            ELSE IF e.id \in DOMAIN c.cl THEN e.id ELSE -1
     stray == isReply /\ ~awaited
